@@ -70,6 +70,10 @@ MUTANTS = [
     ("p1_place_by_element_number", "bempp_cl/api/space/scalar_spaces.py", "bary_elements = _np.arange(6) + 6 * index", "bary_elements = _np.arange(6) + 6 * elem_index", 0, ["C10"]),
     ("rwg_place_unscaled", "bempp_cl/api/space/maxwell_spaces.py", "dof_coeffs = bary_coeffs * outer_edges[local_dof] / dof_mult", "dof_coeffs = bary_coeffs / dof_mult", 0, ["C10"]),
     ("compat_partial_conversion", "bempp_cl/api/space/space.py", "converted = [space.barycentric_representation() for space in args]", "converted = [space.barycentric_representation() if space.is_barycentric else space for space in args]", 0, ["C10"]),
+    ("bc_ref_cell_offset", "bempp_cl/api/space/maxwell_spaces.py", "bary_upper_plus = 6 * upper + 2 * local_vertex1 + 1", "bary_upper_plus = 6 * upper + 2 * local_vertex1 - 1", 0, ["C10"]),
+    ("bc_ref_edge_local_dof", "bempp_cl/api/grid/grid.py", "bary_dofs.append(local2global[bary_upper_plus, 2])", "bary_dofs.append(local2global[bary_upper_plus, 1])", 0, ["C10"]),
+    ("bc_ref_edge_sign", "bempp_cl/api/grid/grid.py", "    values.append(-1.0 / (2 * edge_length_lower))\n    values.append(1.0 / (2 * edge_length_lower))", "    values.append(1.0 / (2 * edge_length_lower))\n    values.append(1.0 / (2 * edge_length_lower))", 0, ["C10"]),
+    ("bc_ref_edge_length_of_other_edge", "bempp_cl/api/grid/grid.py", "edge_length_upper = edge_lengths[bary_grid.data().element_edges[2, bary_upper_minus]]", "edge_length_upper = edge_lengths[bary_grid.data().element_edges[0, bary_upper_minus]]", 0, ["C10"]),
     ("dual0_pairing", "bempp_cl/api/space/scalar_dual_spaces.py", "_bary_dofs.append(6 * face_n + (2 * vertex - 1) % 6)", "_bary_dofs.append(6 * face_n + (2 * vertex + 1) % 6)", 0, ["C10"]),
     ("dual1_edge_list", "bempp_cl/api/space/scalar_dual_spaces.py", "enumerate([[1, 5], [13, 17], [7, 11]])", "enumerate([[1, 5], [7, 11], [13, 17]])", 0, ["C10"]),
     ("bary_connectivity", "bempp_cl/api/grid/grid.py", "        new_elements[1, 6 * index + 2] = local_vertex_ids[2]", "        new_elements[1, 6 * index + 2] = local_vertex_ids[1]", 0, ["C10", "C11"]),
